@@ -547,7 +547,12 @@ def report(pid, pc, tier, seed, results, extra_results, wall):
         # tree: their proof could not be replayed, so a failure inside them is UNDECIDED (exit 2), never an alarm
         lost_fns = {}
         for l in g.lost:
-            lost_fns.setdefault(l.get("where", ""), []).append(l.get("anchor", ""))
+            # only PROOF HINTS count here (a hint that could not be placed even by following the diff, or that no
+            # longer type-checks).  A contract annotation whose construct is gone (a closure, a loop, a comparison
+            # that no longer exists in that form) is different: the clauses that depended on it are checked without it
+            # and reported if they fail (an obligation that held on the unchanged tree and now fails).
+            if l.get("kind") == "hint":
+                lost_fns.setdefault(l.get("where", ""), []).append(l.get("anchor", ""))
         def _lost(fn, what):
             if fn in lost_fns:
                 undecided.append({"group": g.name, "reason": "proof annotations of %s no longer attach to the code (lost anchor %r): %s is not decided" % (fn, lost_fns[fn][0][:60], what)})
@@ -654,6 +659,7 @@ def report(pid, pc, tier, seed, results, extra_results, wall):
             "per_function_smt": sorted(per_fn_time, key=lambda x: -x["smt_s"])[:40],
             "rewrites": rewrites[:200],
             "lost_optional_anchors": lost,
+            "hints_reanchored_by_diff": [x for r0 in results if r0.get("g") is not None for x in getattr(r0["g"], "reanchored", [])],
             "vacuity_canaries": canaries,
             "unspecified_std_functions": havocs,
             "not_covered": pc.get("not_covered", []),
@@ -716,5 +722,25 @@ def main():
     return 2
 
 
+def write_baseline():
+    """VX_WRITE_BASELINE=1: record the text of every function under contract as it is on this tree (the tree the
+    proofs were written against) in baseline/functions.json; lost hint anchors are later re-placed by a line diff
+    against these texts."""
+    import assemble as _a
+    if not _a.BASELINE_OUT:
+        return
+    bp = os.path.join(VERIF, "baseline", "functions.json")
+    os.makedirs(os.path.dirname(bp), exist_ok=True)
+    cur = {}
+    if os.path.exists(bp):
+        cur = json.load(open(bp))
+    cur.update(_a.BASELINE_OUT)
+    json.dump(cur, open(bp, "w"), indent=0, sort_keys=True)
+    print("baseline: %d function texts recorded in %s" % (len(cur), bp))
+
+
 if __name__ == "__main__":
-    sys.exit(main())
+    rc = main()
+    if os.environ.get("VX_WRITE_BASELINE"):
+        write_baseline()
+    sys.exit(rc)
